@@ -40,10 +40,15 @@ def _points(case):
     b = math.radians(case["brg"])
     e2, n2 = e1 + case["dist"] * math.sin(b), n1 + case["dist"] * math.cos(b)
     south = lat1 < 0
-    # keep the second point in the same hemisphere, 1 km off the equator, and inside the band
-    if south and not (1120000.0 <= n2 <= 10000000.0 - 1000.0):
+    if case.get("on_equator"):
+        # second point exactly on the equator, in the first point's hemisphere convention (northing 10 000 000 / 0)
+        n2 = 10000000.0 if south else 0.0
+        if abs(n2 - n1) > 100000.0:
+            raise Discard()
+    # keep the second point in the same hemisphere (on the equator or at least 1 km off it) and inside the band
+    elif south and not (1120000.0 <= n2 <= 10000000.0 - 1000.0):
         raise Discard()
-    if not south and not (1000.0 <= n2 <= 9320000.0):
+    elif not south and not (1000.0 <= n2 <= 9320000.0):
         raise Discard()
     if not (100000.0 <= e2 <= 900000.0):
         raise Discard()
@@ -184,7 +189,10 @@ def lines(draw, ell_strategy=None):
     brg = draw(st.one_of(S.floats(0.0, 360.0), st.sampled_from([0.0, 90.0, 180.0, 270.0, 45.0, 306.52])))
     ell = draw(ell_strategy if ell_strategy is not None else st.sampled_from(["grs80", "grs80", "grs80", "wgs84", "ans", "intl24"]))
     adj = draw(st.integers(0, 9)) < 4
-    return {"zone": zone, "lat": lat, "dlon": dlon, "dist": dist, "brg": brg, "ell": ell, "adj": adj}
+    on_eq = draw(st.integers(0, 11)) == 0
+    if on_eq:
+        lat = math.copysign(draw(S.floats(0.06, 0.85)), lat)      # first point within 100 km of the equator
+    return {"zone": zone, "lat": lat, "dlon": dlon, "dist": dist, "brg": brg, "ell": ell, "adj": adj, "on_equator": on_eq}
 
 
 def _nt(case):
@@ -199,10 +207,18 @@ def _classes(case):
         out.append("near-cm")
     if abs(case["lat"]) > 70:
         out.append("high-lat")
+    if case.get("on_equator"):
+        out.append("second-point-on-equator")
     return out
 
 
-GROUPS = [["zone"], ["lat", "dlon"], ["dist", "brg"], ["ell"], ["adj"]]
+GROUPS = [["zone"], ["lat", "dlon", "on_equator"], ["dist", "brg"], ["ell"], ["adj"]]
+
+
+def _ends_on_equator(case):
+    """Matcher of the open finding 'vincdir_utm towards a point exactly on the equator' (see known_findings.json)."""
+    return any(c.get("on_equator") for c in (case["seq"] if "seq" in case else [case]))
+
 
 SUBCHECKS = [
     SubCheck("inverse_is_definition", check_inverse_definition, strategy=lines(), nontrivial=_nt, classes=_classes,
@@ -210,6 +226,7 @@ SUBCHECKS = [
              rule="vincinv_utm = (vincinv distance x line_sf, azimuths + convergence of each point's own zone)"),
     SubCheck("direct_inverts_inverse", check_direct_inverts, strategy=lines(), nontrivial=_nt, classes=_classes,
              quick=1000, thorough=50000, shards_quick=4, shards_thorough=16, seq_groups=GROUPS,
+             matchers={"ends_on_equator": _ends_on_equator},
              rule="vincdir_utm with the inverse's bearing and grid distance reproduces point 2 (in zone 1) within 1 mm"),
     SubCheck("line_scale_factor_bounds", check_lsf_bounds, strategy=lines(), nontrivial=_nt, classes=_classes,
              quick=1200, thorough=60000, shards_quick=4, shards_thorough=16, seq_groups=GROUPS,
